@@ -207,6 +207,9 @@ def w_interstitial(arg):
                 got = 0.5 * (Dp[:, :, a, b] + Dp[:, :, b, a])
                 worst = max(worst, np.abs(got - fdD).max())
             acc.check(worst <= 1e-6 * max(np.abs(Dp).max(), sc), 'elastodiffusion-is-strain-derivative-of-diffusivity', '%s: %.2e' % (tag, worst / max(np.abs(Dp).max(), sc)), sig=(t, 'elasto'))
+        if which == 'C12' and t == nsets - 1:
+            beT = beT + 24.          # every transition state 24 kT higher: all rates ~ 4e-11 of the first data sets (what counts as a mode is a matter of rate RATIOS)
+            tag = tag + ' (all rates x exp(-24))'
         if which == 'C12':
             dip = [rng.normal(size=(dim, dim)) for _ in d.sitelist]
             LL = d.losstensors(pre, be, dip, preT, beT)
